@@ -1,6 +1,153 @@
-/-! `pmodel gamma`: line-protocol driver (stub — replaced by the owner of this model). -/
-namespace Driver.Gamma
+import PhreeqcVerif.Model.Util
+import PhreeqcVerif.Model.NumOps
+import PhreeqcVerif.Model.Gamma
+import PhreeqcVerif.Model.Pitzer
+/-! `pmodel gamma`: line-protocol driver of the activity-coefficient models (C16).  Doubles are 16 hex digits.
 
-def run : IO Unit := IO.eprintln "pmodel gamma: not implemented"
+* `interp <tc> <n> t1..tn v1..vn`                         → `I <hex>` | `I none`   (LLNL grid interpolation)
+* `co2 c0 c1 c2 c3 c4 tk mu`                              → `C <hex>`              (value of `log_g_co2`)
+* `lg <gflag> z dha dhb mu a b <hasLlnl> aL bL bdotL lgco2 laH2O gfw` → `L <hex>` | `L none`
+* `sel <zIsZero> <n|e|w> opt…`  (`g:a:b`, `l:a`, `c`, `w`; `-` = not scanned) → `A <gflag> <dha> <dhb>`
+* `pz n mu a0 minTotal icon ic useEtheta mcb0 mcb1 mcc0 tk` / `s z M`×n / `p type i0 i1 i2 alpha etheta ethetap a0..a5`… / `end`
+                                                          → `PC k ln0 ln1 ln2 os p`…, `PL k <LGAMMA>`×n, `PO cosmot aw`
+* `sit n mu a0 tk` / `s z M`×n / `e <13|14> i0 i1 a0..a4`… / `end` → `PL k <sit_LGAMMA>`×n, `PO cosmot aw` -/
+namespace Driver.Gamma
+open PhreeqcVerif PhreeqcVerif.Util
+
+def fx (s : String) : Float := (floatOfHex s).getD 0.0
+def hx (f : Float) : String := hexOfFloat f
+def optF (s : String) : Option Float := if s = "-" then none else floatOfHex s
+
+def parseOpt (s : String) : Option (Gamma.GOpt Float) :=
+  match s.splitOn ":" with
+  | ["g", a, b] => some (.gamma (optF a) (optF b))
+  | ["l", a] => some (.llnlGamma (optF a))
+  | ["c"] => some .co2Llnl
+  | ["w"] => some .actWater
+  | _ => none
+
+def arr (l : List Float) : Nat → Float := let a := l.toArray; fun k => a.getD k 0.0
+
+structure Blk where
+  kind : String := ""
+  head : List String := []
+  sp : Array (Float × Float) := #[]
+  ps : Array (List String) := #[]
+
+def finishPz (b : Blk) (out : IO.FS.Stream) : IO Unit := do
+  match b.head with
+  | [n, mu, a0, minT, icon, ic, ue, m0, m1, c0, tk] =>
+    let n := n.toNat!
+    let z := arr (b.sp.toList.map (·.1))
+    let m := arr (b.sp.toList.map (·.2))
+    let mu := fx mu
+    let tk := fx tk
+    let di := Float.sqrt mu
+    let mut ps : Array (Pitzer.PParam Float) := #[]
+    let mut k := 0
+    for w in b.ps do
+      match w with
+      | ty :: i0 :: i1 :: i2 :: al :: et :: etp :: a0' :: a1 :: a2 :: a3 :: a4 :: a5 :: _ =>
+        match Pitzer.PType.ofCode ty.toNat! with
+        | some t =>
+          let i0 := i0.toNat!
+          let i1 := i1.toNat!
+          let i2 := i2.toNat!
+          let p := Pitzer.calcParam (fx a0') (fx a1) (fx a2) (fx a3) (fx a4) (fx a5) tk
+          let al := fx al
+          let nz := fun i => Pitzer.isZero (z i)
+          let (l0, l1, l2, os) : Float × Float × Float × Float :=
+            match t with
+            | .lambda => let c := Pitzer.lambdaCoefs (α := Float) i0 i1; (c.1, c.2.1, 0.0, c.2.2)
+            | .mu => (Pitzer.muLn i0 i1 i2 i0 (nz i0), Pitzer.muLn i0 i1 i2 i1 (nz i1), Pitzer.muLn i0 i1 i2 i2 (nz i2),
+                      Pitzer.muOs i0 i1 i2 (nz i0) (nz i1) (nz i2))
+            | _ => (0.0, 0.0, 0.0, 0.0)
+          let pp : Pitzer.PParam Float :=
+            { type := t, i0 := i0, i1 := i1, i2 := i2, p := p,
+              c0den := 2.0 * Float.sqrt (Pitzer.absv (z i0 * z i1)),
+              ln0 := l0, ln1 := l1, ln2 := l2, os := os,
+              g := Pitzer.G (al * di), gp := Pitzer.GP (al * di), ex := Float.exp (-al * di),
+              etheta := fx et, ethetap := fx etp }
+          out.putStrLn s!"PC {k} {hx l0} {hx l1} {hx l2} {hx os} {hx p}"
+          ps := ps.push pp
+        | none => out.putStrLn s!"PC {k} bad-type"
+      | _ => out.putStrLn s!"PC {k} bad-line"
+      k := k + 1
+    let x : Pitzer.PzIn Float :=
+      { n := n, m := m, z := z, mu := mu, a0 := fx a0, minTotal := fx minT, icon := icon == "1", ic := ic.toNat!,
+        useEtheta := ue == "1", mcb0 := optF m0, mcb1 := optF m1, mcc0 := optF c0, ps := ps.toList }
+    let r := Pitzer.pitzer x
+    for i in [0:n] do
+      out.putStrLn s!"PL {i} {hx (r.lgamma i)}"
+    out.putStrLn s!"PO {hx r.cosmot} {hx r.aw}"
+  | _ => out.putStrLn "bad-op"
+
+def finishSit (b : Blk) (out : IO.FS.Stream) : IO Unit := do
+  match b.head with
+  | [n, mu, a0, tk] =>
+    let n := n.toNat!
+    let z := arr (b.sp.toList.map (·.1))
+    let m := arr (b.sp.toList.map (·.2))
+    let tk := fx tk
+    let mut ps : Array (Pitzer.SParam Float) := #[]
+    for w in b.ps do
+      match w with
+      | ty :: i0 :: i1 :: a0' :: a1 :: a2 :: a3 :: a4 :: _ =>
+        ps := ps.push { eps1 := ty == "14", i0 := i0.toNat!, i1 := i1.toNat!,
+                        p := Pitzer.calcSitParam (fx a0') (fx a1) (fx a2) (fx a3) (fx a4) tk }
+      | _ => out.putStrLn "bad-line"
+    let r := Pitzer.sit { n := n, m := m, z := z, mu := fx mu, a0 := fx a0, ps := ps.toList }
+    for i in [0:n] do
+      out.putStrLn s!"PL {i} {hx (r.lgamma i)}"
+    out.putStrLn s!"PO {hx r.cosmot} {hx r.aw}"
+  | _ => out.putStrLn "bad-op"
+
+def oneLine (w : List String) : String :=
+  match w with
+  | "interp" :: tc :: n :: rest =>
+    let n := n.toNat!
+    let ts := (rest.take n).map fx
+    let vs := ((rest.drop n).take n).map fx
+    match Gamma.interp ts vs (fx tc) with
+    | some v => s!"I {hx v}"
+    | none => "I none"
+  | ["co2", c0, c1, c2, c3, c4, tk, mu] =>
+    s!"C {hx (Gamma.co2Poly (fx c0) (fx c1) (fx c2) (fx c3) (fx c4) (fx tk) (Gamma.clampMu (fx mu)))}"
+  | ["lg", fl, z, dha, dhb, mu, a, b, hl, aL, bL, bd, lgc, la, gfw] =>
+    match Gamma.GModel.ofFlag fl.toNat! with
+    | some m =>
+      let e : Gamma.Env Float :=
+        { mu := Gamma.clampMu (fx mu), a := fx a, b := fx b, hasLlnl := hl == "1", aL := fx aL, bL := fx bL,
+          bdotL := fx bd, lgCO2 := fx lgc, laH2O := fx la, gfwWater := fx gfw }
+      match Gamma.lgOf e m (fx z) (fx dha) (fx dhb) with
+      | some v => s!"L {hx v}"
+      | none => "L none"
+    | none => "L none"
+  | "sel" :: zz :: sp :: opts =>
+    let d : Gamma.Decl Float :=
+      { zIsZero := zz == "1", special := (if sp == "e" then .eminus else if sp == "w" then .h2o else .none),
+        opts := opts.filterMap parseOpt }
+    let a := Gamma.assign d
+    s!"A {a.model.flag} {hx a.dha} {hx a.dhb}"
+  | _ => "bad-op"
+
+def run : IO Unit := do
+  let lines ← readLines (← IO.getStdin)
+  let out ← IO.getStdout
+  let mut blk : Option Blk := none
+  for l in lines do
+    let w := words l
+    match blk, w with
+    | _, [] => pure ()
+    | none, "pz" :: rest => blk := some { kind := "pz", head := rest }
+    | none, "sit" :: rest => blk := some { kind := "sit", head := rest }
+    | some b, ["s", z, m] => blk := some { b with sp := b.sp.push (fx z, fx m) }
+    | some b, "p" :: rest => blk := some { b with ps := b.ps.push rest }
+    | some b, "e" :: rest => blk := some { b with ps := b.ps.push rest }
+    | some b, ["end"] =>
+      if b.kind == "pz" then finishPz b out else finishSit b out
+      blk := none
+    | some _, _ => out.putStrLn "bad-op"
+    | none, _ => out.putStrLn (oneLine w)
 
 end Driver.Gamma
